@@ -264,6 +264,11 @@ class Admin(callbacks.Plugin):
             # users can only give out capabilities they have themselves (which
             # will depend on supybot.capabilities and its child default) but
             # generally means they can't mess with channel capabilities.
+            if capability.split() != [capability]:
+                # It is written on a line of its own in users.conf.
+                irc.errorInvalid(_('capability'), capability,
+                                 _('Capabilities must not contain '
+                                 'whitespace.'), Raise=True)
             if ircutils.strEqual(capability, 'owner'):
                 irc.error(_('The "owner" capability can\'t be added in the '
                           'bot.  Use the supybot-adduser program (or edit the '
